@@ -53,7 +53,9 @@ func vfC03L1(data []byte, c vfC03L1Cfg) (lines []string, timedOut bool) {
 	old := VerifSetMaxBinEntryBuffer(c.thr)
 	defer VerifSetMaxBinEntryBuffer(old)
 	fe := []string{"replace", "flush", "append"}[c.fnex]
-	opts := []RdbParseOption{WithTargetRedisVersion(fmt.Sprintf("%d.%d.0", c.tgt, c.minor)), WithFunctionExists(fe)}
+	// WithStreamIdleConsumers: what both production call sites pass (syncer/output.go rdbParseOptions, cmd/rdb.go;
+	// source fact idle_consumer_option_sites) - the model is of the tool as it runs (repair of C03-F1)
+	opts := []RdbParseOption{WithTargetRedisVersion(fmt.Sprintf("%d.%d.0", c.tgt, c.minor)), WithFunctionExists(fe), WithStreamIdleConsumers()}
 	if c.modaux {
 		opts = append(opts, WithFailOnModuleAux())
 	}
